@@ -318,6 +318,12 @@ fn check14(case: &Value, obs: &mut Obs) {
     obs.class("maps_derived_by_clone_and_setters");
   }
   let (sa, sb, _other, hist_a, hist_b) = parse(case);
+  // the generator shared with C20 also draws replacement ranges with
+  // end < start; for those the library's text and chunk stream differ (outside
+  // the domain of C01 / C05), so observers cannot be expected to agree across
+  // cache replays: C14 looks at the same trees with the ranges put in order
+  let sa = sa.with_ordered_ranges();
+  let sb = sb.map(|b| b.with_ordered_ranges()).filter(|b| *b != sa);
   let a = build_box(&sa);
   let a2 = build_box(&sa);
   let ctx = |s: String| format!("{s}; tree {}", serde_json::to_string(&sa).unwrap());
